@@ -84,4 +84,4 @@ def handleC17 (j : Json) : Except String Verdict := do
   | "lay" => handleLay j
   | k => throw s!"unknown kind {k}"
 
-def main : IO Unit := runDriver handleC17
+def main : IO Unit := D2V.Drv.Lay.runSanitized handleC17
